@@ -72,6 +72,8 @@ class TaggedCodec:
 
     @staticmethod
     def to_wire(v):
+        if v == "i:$null":
+            return None  # a scalar may serialise a non-null internal value to null
         if isinstance(v, str) and v.startswith("i:"):
             return "w:" + v[2:]
         raise ValueError("not internal: %r" % (v,))
@@ -98,6 +100,8 @@ class EvenCodec:
 
     @staticmethod
     def to_wire(v):
+        if v == 424242:
+            return None  # a scalar may serialise a non-null internal value to null
         if isinstance(v, int) and not isinstance(v, bool):
             return v * 2
         raise ValueError("not internal: %r" % (v,))
